@@ -189,6 +189,9 @@ def specHistory (rx : String → String → Bool) :
         match checkMerges rx w m.tail failAt o.raws o.held 0 with
         | some why => (n + 1, some s!"op {k} (add_parameter on class {cls}): {why}")
         | none =>
+          if failAt.isSome && o.installed then
+            (n + 1, some s!"op {k}: add_parameter on class {cls} failed but left the Parameter p{name} installed")
+          else
           let w' : World := if o.installed then
               { w with params := fun c nm => if c = cls ∧ nm = name then lookupP o.held name else w.params c nm }
             else w
